@@ -132,8 +132,10 @@ def create_random_binary_mask(features):
 
 
 def searchsorted(bin_locations, inputs, eps=1e-6):
-    bin_locations[..., -1] += eps
-    return torch.sum(inputs[..., None] >= bin_locations, dim=-1) - 1
+    # The last bin is closed on the right: an input equal to the last location belongs to it.
+    last_bin = bin_locations.shape[-1] - 2
+    bin_idx = torch.sum(inputs[..., None] >= bin_locations, dim=-1) - 1
+    return torch.clamp(bin_idx, max=last_bin)
 
 
 def cbrt(x):
